@@ -30,7 +30,7 @@ TABLE_FALLBACK = {
     "ffi": {"ffi_tab", "ffi_db"},
 }
 
-HOOK_COMMITS = ["30e20bd", "42a3e10", "f48b181", "076be68"]
+HOOK_COMMITS = ["30e20bd", "42a3e10", "f48b181", "076be68", "2621594"]
 
 
 def always(*_a):
